@@ -589,6 +589,36 @@ func kindOf(v string) string {
 // independently of where the deviations happened.
 func witness(kind string, steps []conc.Step) []string {
 	var out []string
+	// w:content-removed-during-read — a reader resolved a version under the read locks (core.getFileFromTx /
+	// getFilesFromTx) and, before it fetched that version's content record or opened its file, another
+	// thread removed the content (content.Repo.Delete / content_file.Repo.Delete): D4, wherever the reader
+	// was held up.
+	if kind == "spurious-not-found" || kind == "getkeys-missing-live-key" {
+		resolved := map[int]bool{}
+		d4 := false
+		for _, st := range steps {
+			switch {
+			case strings.Contains(st.Site, "RLock<internal/usecase/core.(*UseCase).getFileFromTx") ||
+				strings.Contains(st.Site, "RLock<internal/usecase/core.(*UseCase).getFilesFromTx"):
+				resolved[st.Thread] = true
+			case strings.Contains(st.Site, "os.Open<internal/repository/content.(*Repo).Get") ||
+				strings.Contains(st.Site, "internal/usecase/transaction.(*UseCase)") ||
+				strings.Contains(st.Site, "<internal/usecase/core.(*UseCase).Store"):
+				// the read is over (file opened), or the thread has gone on to something else
+				delete(resolved, st.Thread)
+			case strings.Contains(st.Site, "os.Remove<internal/repository/content.(*Repo).Delete") ||
+				strings.Contains(st.Site, "(*Manager).Delete<internal/repository/content_file.(*Repo).Delete"):
+				for th := range resolved {
+					if th != st.Thread {
+						d4 = true
+					}
+				}
+			}
+		}
+		if d4 {
+			out = append(out, "w:content-removed-during-read")
+		}
+	}
 	// w:gc-horizon-during-begin — a GC pass read the transaction registry (or drew its fall-back horizon)
 	// while a Begin had drawn its sequence but had not finished registering (D3b/c).
 	inflight := map[int]int{} // thread -> 1 drawn, 2 registering (next step ends it)
